@@ -23,7 +23,7 @@ CHECKS = {
          "Scope and derivability are judged by the harness's own tables; map order is sampled, not enumerated.", "5/C05"),
  "C06": ("process-supervised execution (crash journal), recovered-panic monitor, recursion/step bound counters at the verif hook",
          "Every well-formed generated scenario is pushed through Call, Convert, Redefine and a call of the redefined function in child processes that survive fatal errors; hostile families target mutual recursion and repeated positional types; malformed options must be ignored or reported. Non-termination is restated as bounded progress observed at the reachTarget hook.",
-         "Bounded-progress restatement of termination (depth <= 8(F+3), <= 10^6 resolver steps per API call); wall-clock watchdog firing is inconclusive.", "5/C06"),
+         "Bounded-progress restatement of termination (depth <= 8(F+3), <= 10^6 resolver steps per API call, 5*10^6 loop steps per case incl. signature analysis); wall-clock watchdog firing is inconclusive. One recorded, unrepaired defect (KNOWN_FINDINGS.txt open: trace-level logger + a value that contains itself -> fatal stack overflow in fmt) is decided by a child-process probe under its own key and printed as KNOWN-FINDING; every other crash key is a violation.", "5/C06"),
  "C07": ("provenance monitor over a dedicated name-affinity generator",
          "Competing same-typed named inputs and competing converters (explicit name vs type-only, same output label) in all forms and orders; the monitor checks which input was converted and which converter ran, over repetitions sampling map order.",
          "Both competing converters declare the same output label; sampled type pairs and names.", "5/C07"),
